@@ -23,6 +23,9 @@ LETTERS = "ABCDEFGHIJKLMNOPQRSTUVWXYZabcdefghijklmnopqrstuvwxyz0123456789"
 def gen_word(rng):
     n = rng.choice([1, 2, 3, 4, 5, 6, 8, 12, 20, 33, 40]) if rng.random() < 0.25 else rng.randint(1, 8)
     w = "".join(rng.choice(LETTERS) for _ in range(n))
+    if rng.random() < 0.15:
+        # the characters of the basic table that are not ASCII (one byte each, parity applies to them too)
+        k = rng.randrange(len(w)); w = w[:k] + rng.choice("áéíóúçñÑ÷") + w[k + 1:]
     r = rng.random()
     if r < 0.12 and n >= 3:
         k = rng.randrange(1, n - 1); w = w[:k] + "-" + w[k + 1:]
